@@ -3,6 +3,7 @@ CONSTANTS
   Shapes = {1, 2}
   MaxDepth = 2
   Small = TRUE
+  Focus = FALSE
   Bug = "none"
 INVARIANTS InvWithinAll InvDifference InvRange InvFoldGeneration InvFoldDescendants InvHeadsRoots InvNotAncestors EmitInv
 CHECK_DEADLOCK FALSE
